@@ -5,19 +5,22 @@ import (
 	"strings"
 )
 
-// skipKeyword returns what follows the declaration keyword at the start of line (leading blanks and
-// tabs ignored, the words of the keyword and the name separated by any run of blanks and tabs, as the
+// whitespace is what the grammar's WHITESPACE token is made of: blank, tab and form feed.
+const whitespace = " \t\f"
+
+// skipKeyword returns what follows the declaration keyword at the start of line (leading white space
+// ignored, the words of the keyword and the name separated by any run of white space, as the
 // grammar allows), and whether the line starts with the keyword at all.
 func skipKeyword(line, keyword string) (string, bool) {
-	rest := strings.TrimLeft(line, " \t")
+	rest := strings.TrimLeft(line, whitespace)
 
 	for _, word := range strings.Fields(keyword) {
 		after, found := strings.CutPrefix(rest, word)
-		if !found || after == "" || (after[0] != ' ' && after[0] != '\t') {
+		if !found || after == "" || !strings.ContainsRune(whitespace, rune(after[0])) {
 			return "", false
 		}
 
-		rest = strings.TrimLeft(after, " \t")
+		rest = strings.TrimLeft(after, whitespace)
 	}
 
 	return rest, true
